@@ -9,9 +9,16 @@
     new state and puts a transition to it into every open block, [break] hands its
     open blocks to the enclosing loop (they become open blocks after the loop),
     [continue] gets the loop head's code (condition + first segment of the body)
-    appended, a while/await that is the very first action of the process uses the
-    (still empty) first state instead of a new one, and every block open at the end
-    of the body gets a transition to the first state.
+    appended, the body of an awaited sub-coroutine is lowered in place and the blocks
+    that end in [return] are open again after the call, a while/await that is the very
+    first action of the process uses the (still empty) first state instead of a new one,
+    and every block open at the end of the body gets a transition to the first state.
+
+    Known structural differences to the emitted machines (not observable, both measured by
+    the harness as "lower_state_count"): the compiler lowers the branches of an [if] once
+    per open block, so states allocated inside an [if] that follows a construct with several
+    open blocks are emitted several times (the model shares them); the compiler allocates
+    no state for awaits in dead code after [await false] (the model does).
 
     The functional rendering below is continuation passing: [ctree s o E first rest]
     is the code placed in the current state for [s] when [rest] is the code that the
@@ -91,12 +98,14 @@ Fixpoint fo (s : stmt) (f : bool) : bool :=
   | Seq a b => fo b (fo a f)
   | Await ATrue => f
   | WhileFalse _ => f
+  | Call b => fo b f
   | _ => false
   end.
 
-(** what a [break] / [continue] of the innermost enclosing loop is replaced by *)
-Record env := { e_brk : tree; e_cnt : tree }.
-Definition env0 : env := {| e_brk := TStay; e_cnt := TStay |}.
+(** what a [break] / [continue] of the innermost enclosing loop and a [return] of the innermost
+    enclosing awaited sub-coroutine are replaced by *)
+Record env := { e_brk : tree; e_cnt : tree; e_ret : tree }.
+Definition env0 : env := {| e_brk := TStay; e_cnt := TStay; e_ret := TStay |}.
 
 
 Fixpoint ctree (s : stmt) (o : nat) (E : env) (first : bool) (rest : tree) : tree :=
@@ -112,18 +121,22 @@ Fixpoint ctree (s : stmt) (o : nat) (E : env) (first : bool) (rest : tree) : tre
   | While c b =>
       if first then
         (* the first state is the loop head *)
-        let body := ctree b (S o) {| e_brk := rest; e_cnt := TStay |} false (TGoto O) in
+        let body := ctree b (S o) {| e_brk := rest; e_cnt := TStay; e_ret := E.(e_ret) |} false (TGoto O) in
         match c with WTrue => body | WCond c => TIf c body rest end
       else TGoto o
   | Break => E.(e_brk)
   | Continue => E.(e_cnt)
-  | Return | Call _ | Wait _ | WaitIn _ => TStay      (* outside the modelled grammar *)
+  | Return => E.(e_ret)
+  (* the body of an awaited sub-coroutine is lowered in place; the blocks that end in [return]
+     are open blocks after the call (IrGenerator.returned_blocks) *)
+  | Call b => ctree b (S o) {| e_brk := TStay; e_cnt := TStay; e_ret := rest |} first rest
+  | Wait _ | WaitIn _ => TStay      (* outside the modelled grammar *)
   end.
 
 (** code of a loop-head state [h]: test, first segment of the body with the back edge to [h]
     (a [continue] cannot occur in that segment: the compiler rejects it) *)
-Definition whead (c : wcond) (b : stmt) (o h : nat) (rest : tree) : tree :=
-  let body := ctree b (S o) {| e_brk := rest; e_cnt := TStay |} false (TGoto h) in
+Definition whead (c : wcond) (b : stmt) (o h : nat) (rest rt : tree) : tree :=
+  let body := ctree b (S o) {| e_brk := rest; e_cnt := TStay; e_ret := rt |} false (TGoto h) in
   match c with WTrue => body | WCond c => TIf c body rest end.
 
 Fixpoint cstates (s : stmt) (o : nat) (E : env) (first : bool) (rest : tree) : machine :=
@@ -138,9 +151,10 @@ Fixpoint cstates (s : stmt) (o : nat) (E : env) (first : bool) (rest : tree) : m
   | WhileFalse _ => if first then [] else [(o, rest)]
   | While c b =>
       let h := if first then O else o in
-      let hd := whead c b o h rest in
+      let hd := whead c b o h rest E.(e_ret) in
       (if first then [] else [(o, hd)])
-      ++ cstates b (S o) {| e_brk := rest; e_cnt := hd |} false (TGoto h)
+      ++ cstates b (S o) {| e_brk := rest; e_cnt := hd; e_ret := E.(e_ret) |} false (TGoto h)
+  | Call b => cstates b (S o) {| e_brk := TStay; e_cnt := TStay; e_ret := rest |} first rest
   | _ => []
   end.
 
@@ -158,6 +172,15 @@ Fixpoint zfall (s : stmt) (f : bool) : bool :=
   | Seq a b => zfall a f && zfall b (fo a f)
   | If _ t e => zfall t false || zfall e false
   | Await (ACond _) | Await ATrue | WhileFalse _ | While _ _ => f
+  | Call b => zfall b f || zret b f
+  | _ => false
+  end
+with zret (s : stmt) (f : bool) : bool :=
+  match s with
+  | Return => true
+  | Seq a b => zret a f || (zfall a f && zret b (fo a f))
+  | If _ t e => zret t false || zret e false
+  | While _ b => f && zret b false
   | _ => false
   end.
 
@@ -180,14 +203,18 @@ Fixpoint zcnt (s : stmt) (f : bool) : bool :=
 (** structure: the modelled constructs; break/continue only inside a loop; no continue
     reachable from its loop head without a clock (the compiler's
     "continue-statement cannot be defined in first state of while-loop") *)
-Fixpoint wf (s : stmt) (inloop : bool) : bool :=
+Fixpoint wf (s : stmt) (inloop incall first : bool) : bool :=
   match s with
   | Skip | Eff _ | Await _ | WhileFalse _ => true
-  | Seq a b => wf a inloop && wf b inloop
-  | If _ t e => wf t inloop && wf e inloop
-  | While _ b => wf b true && negb (zcnt b false)
+  | Seq a b => wf a inloop incall first && wf b inloop incall (fo a first)
+  | If _ t e => wf t inloop incall false && wf e inloop incall false
+  | While _ b => wf b true incall false && negb (zcnt b false)
   | Break | Continue => inloop
-  | Return | Call _ | Wait _ | WaitIn _ => false
+  (* a [return] that is the very first action of the process is excluded: Coro.exec clears [first]
+     there, the compiler's first state is still empty (see the report) *)
+  | Return => incall && negb first
+  | Call b => wf b false true first
+  | Wait _ | WaitIn _ => false
   end.
 
 (** fuel: [Coro.exec] is fuelled ([ref_fuel] per clock).  [fneed s nf] bounds the interpreter
@@ -198,6 +225,7 @@ Fixpoint fneed (s : stmt) (nf : nat) : nat :=
   | Seq a b => S (fneed a (S (fneed b nf)))
   | If _ t e => S (Nat.max (fneed t nf) (fneed e nf))
   | While _ b => S (Nat.max (fneed b (S nf)) nf)
+  | Call b => S (fneed b (S nf))
   | _ => S nf
   end.
 
@@ -209,8 +237,9 @@ Fixpoint fchk (s : stmt) (nf : nat) : bool :=
       let nl := S (S (fneed b (S nf))) in
       Nat.leb (fneed b (S nf)) ref_fuel && Nat.leb nf ref_fuel && fchk b nl
   | Await _ | WhileFalse _ => Nat.leb nf ref_fuel
+  | Call b => fchk b (S nf)
   | _ => true
   end.
 
 Definition in_grammar (p : stmt) : bool :=
-  wf p false && fchk p 1 && Nat.leb (fneed p 1) ref_fuel.
+  wf p false false true && fchk p 1 && Nat.leb (fneed p 1) ref_fuel.
